@@ -78,6 +78,11 @@ CLAIMED["C08"]=dict(
    text="Exploration: (a) complete: 77k chains (quick: <=4 operators over all 12, 5-6 over the 6 declared; thorough one longer); (b) 20k (quick) / 500k (thorough) programs x styles {explicit in, layout, redundant parentheses, line comments, blank lines, CRLF}; spans must be inside the source, on char boundaries, nested, ordered, and cover exactly the identifier / operator / field name. Found and fixed: the span of #Int+ style operators covered only '#'.",
    note="the printer parenthesises operands of infix expressions, so precedence-driven grouping is decided by (a) only; block comments and doc comments are not generated in (b)",
    ref="6 C08")
+CLAIMED["C10"]=dict(
+   technique="metamorphic / round-trip property-based testing of the formatter: generated programs printed in random legal styles (comments, long lines, explicit in, CRLF) and every .glu file of the repository under whitespace perturbation; oracle = formatted text parses to the same canonical tree (after macro expansion and infix regrouping, as format_expr does), same comment sequence, byte-identical literal tokens, second formatting is the identity",
+   text="Exploration: 60k (quick) / 1M (thorough) generated programs + 96 repository files x 4 (8) perturbations. Found and fixed: any let written with `in` was formatted to unparseable text; comments after a rec group's `in` were dropped. Two recorded known findings: comments in positions the formatter never looks at are dropped (comments next to let bindings are still enforced), and broken tuples are re-indented by a second pass.",
+   note="comment positions are classified by the harness (see safe_comments); only the loss of comments outside the enforced positions and a whitespace-only second-pass difference on a broken tuple are matched against the known findings; everything else is a violation",
+   ref="6 C10")
 NOT_YET = {}
 def main():
     props=[json.loads(l) for l in open('/verif/properties.jsonl')]
